@@ -275,6 +275,56 @@ def dc_clock_skew(ctx):
         c.time, c._sync_get_key, c._async_get_key = old
 
 
+
+def overlapping_calls(ctx):
+    """two protect calls on ONE cache that overlap in time (two threads): the outer call has read its clock and is inside the key derivation
+    when a complete inner call runs under a clock in the NEXT interval; each blob names the interval of the clock ITS call read — nothing
+    kept on the shared cache between the clock read and the use of the indices may leak from one call into the other"""
+    import dpapi_ng._client as c
+    import dpapi_ng._gkdi as g
+    if not hasattr(c, "compute_l1_key"):
+        return
+    for (a_pos, b_pos) in (((361, 5, 6), (361, 5, 7)), ((361, 5, 31), (361, 6, 0)), ((361, 31, 31), (362, 0, 0)), ((361, 5, 7), (361, 5, 6))):
+        ta = ticks_to_ns(((a_pos[0] * 32 + a_pos[1]) * 32 + a_pos[2]) * B + 5)
+        tb = ticks_to_ns(((b_pos[0] * 32 + b_pos[1]) * 32 + b_pos[2]) * B + 5)
+        now = [ta]
+        old = (c.time, g.kdf, c.compute_l1_key)
+        c.time = type("T", (), {"time_ns": staticmethod(lambda: now[0])})
+        g.kdf = budget_kdf(2000)
+        state = {"inner": None, "busy": False}
+        real_l1 = c.compute_l1_key
+        cache = c.KeyCache()
+        cache.load_key(b"\x01" * 64, RK)
+
+        def hooked(*a, **kw):
+            if not state["busy"] and state["inner"] is None:
+                state["busy"] = True
+                now[0] = tb
+                try:
+                    e2 = c._get_protection_gke_from_cache(RK, b"sd", cache)
+                    state["inner"] = (e2.l0, e2.l1, e2.l2)
+                except Exception as e:  # noqa
+                    state["inner"] = "err " + type(e).__name__
+                finally:
+                    now[0] = ta
+                    state["busy"] = False
+            return real_l1(*a, **kw)
+        c.compute_l1_key = hooked
+        try:
+            e1 = c._get_protection_gke_from_cache(RK, b"sd", cache)
+            outer = (e1.l0, e1.l1, e1.l2)
+        except Exception as e:  # noqa
+            outer = "err " + type(e).__name__
+        finally:
+            c.time, g.kdf, c.compute_l1_key = old
+        ctx.count("overlapping_calls")
+        if outer != a_pos or state["inner"] not in (b_pos, None):
+            ctx.violation("of two overlapping protect calls on one cache, a blob names the interval of the OTHER call's clock reading",
+                          {"scenario": "overlapping_calls", "outer_clock_interval": list(a_pos), "inner_clock_interval": list(b_pos)},
+                          f"outer names {outer}, inner names {state['inner']}", f"outer {a_pos}, inner {b_pos}")
+            return
+
+
 def advancing_clock(ctx):
     """a clock that moves during the call: the key identifier must name the interval of ONE instant the clock showed
     (L0, L1 and L2 taken from different readings can name a key hours or a year in the past)"""
@@ -397,6 +447,7 @@ def run(ctx):
     unreachable_dc(ctx)
     timezones(ctx)
     dc_clock_skew(ctx)
+    overlapping_calls(ctx)
     seeded_cache(ctx)
     cache_histories(ctx)
 
@@ -419,6 +470,12 @@ def search(ctx, broken, disagreements):
 
 def replay(ctx, payload):
     v = payload["violation"]
+    if v["input"].get("scenario") == "overlapping_calls":
+        c2 = type(ctx)(ctx.prop, "quick", ctx.seed)
+        overlapping_calls(c2)
+        for x in c2.violations:
+            print(" ", x["what"], x["input"], x["observed"])
+        return not c2.violations
     if v["input"].get("scenario") == "dc_clock_skew":
         c2 = type(ctx)(ctx.prop, "quick", ctx.seed)
         dc_clock_skew(c2)
